@@ -1257,12 +1257,12 @@ package server
 // C18: the text session a connection opens with the ADMIN command ends like a connection: its protocol object is closed (wills run,
 // session removed, reply routes repointed) when the session ends - the connection itself stays with the outer protocol
 //@ func (*BinaryServerProtocol).ProcessCommad
-//@   ensures C18.admin.session-closed: implies(calls(NewTextServerProtocol) == 1 && calls(TextServerProtocol.Process) == 1, calls(TextServerProtocol.Close) == 1)
+//@   ensures C18.admin.session-closed: implies(calls(NewTextServerProtocol) == 1 && calls(TextServerProtocol.Process) >= 1, calls(TextServerProtocol.Close) >= 1)
 //@   at call NewInitResultCommand#1 assert C18.init.registered: has(self.slock.clients, initCommand.ClientId) && ref(self.slock.clients[initCommand.ClientId]) == self
 //@   at call LockCommandQueue.Push assert C18.will.register: calls(LockDB.Lock) == 0 && calls(LockDB.UnLock) == 0 && (arg1.CommandType == protocol.COMMAND_LOCK || arg1.CommandType == protocol.COMMAND_UNLOCK)
 //@   modifies all
 //@ func (*TextServerProtocol).ProcessCommad
-//@   ensures C18.admin.session-closed: implies(calls(NewTextServerProtocol) == 1 && calls(TextServerProtocol.Process) == 1, calls(TextServerProtocol.Close) == 1)
+//@   ensures C18.admin.session-closed: implies(calls(NewTextServerProtocol) == 1 && calls(TextServerProtocol.Process) >= 1, calls(TextServerProtocol.Close) >= 1)
 //@   modifies all
 //@ func (*SLock).removeServerProtocol
 //@   modifies all
